@@ -73,12 +73,11 @@ theorem C29_old_skeleton_overtakes :
       [0, 0, 0, 0, 0, 1, 1, 0, 0, 0]
     s.out.map (·.text) = ["late", "a", "b"] := by decide
 
-/-- **Monitor backlog.** A handler registered after the lines `pre` (all non-empty;
-`log` never writes an empty line) and followed by the lines `post` has received
-exactly the last `min |pre| cap` lines of `pre`, oldest first, then every later
-line once, in order. -/
-theorem C29_monitor_backlog (cap : Nat) (hc : 0 < cap) (pre post : List String)
-    (hne : ∀ l ∈ pre, l ≠ "") (h : Nat) :
+/-- **Monitor backlog.** A handler registered after the lines `pre` (any lines, empty
+ones included since the repair of the ring's wrap detection) and followed by the
+lines `post` has received exactly the last `min |pre| cap` lines of `pre`, oldest
+first, then every later line once, in order. -/
+theorem C29_monitor_backlog (cap : Nat) (hc : 0 < cap) (pre post : List String) (h : Nat) :
     alookup (writes ((writes (LW.new cap) pre).register h) post).handlers h
       = some (pre.drop (pre.length - cap) ++ post) := by
   have hi : RingInv cap (writes (LW.new cap) pre) ([] ++ pre) := ringInv_writes hc pre (RingInv.new cap hc)
@@ -101,10 +100,13 @@ theorem C29_monitor_backlog (cap : Nat) (hc : 0 < cap) (pre post : List String)
     have : ((writes (LW.new cap) pre).register h).logs = (writes (LW.new cap) pre).logs := by
       simp [LW.register, hnoh]
     rw [this, hi.1]; exact hc
-  rw [(handlers_writes post _ h hlen).1, hreg, backlog_eq hc hi hne]
+  rw [(handlers_writes post _ h hlen).1, hreg, backlog_eq hc hi]
   simp [alookup]
 
--- Non-vacuity of the backlog theorem's hypotheses and a concrete instance (cap 3, five lines).
+-- The former failing input (an empty line as oldest entry of a wrapped ring of 2) is now replayed in full.
+example : alookup ((writes (LW.new 2) ["a", "", "b"]).register 1).handlers 1 = some ["", "b"] := by decide
+
+-- A concrete instance (cap 3, five lines).
 example : alookup (writes ((writes (LW.new 3) ["1", "2", "3", "4", "5"]).register 7) ["6"]).handlers 7
     = some ["3", "4", "5", "6"] := by decide
 
